@@ -173,6 +173,14 @@ def gen_pair(r, max_chrom=3, max_genes=6, max_tes=30, chrom_names=None, min_chro
             o, sf = r.choice(groups)
             b = base if base is not None else MAXC - 5000
             tes.append({"chrom": cn, "start": b + 10, "stop": b + 20, "order": o, "superfam": sf, "strand": "+"})
+    if len(names) >= 2 and r.random() < 0.3:
+        # the same element (coordinates and type) annotated on two chromosomes: they are different elements
+        src = [t for t in tes if t["chrom"] == names[0]]
+        for t in r.sample(src, min(len(src), r.randint(1, 3))):
+            c = dict(t); c["chrom"] = r.choice(names[1:]); tes.append(c)
+        feats.add("same_element_on_two_chromosomes")
+    if r.random() < 0.12:
+        tes = cross_order_only(r, tes, groups, feats)
     shuffled = r.random() < 0.5
     if shuffled:
         r.shuffle(genes); r.shuffle(tes)
@@ -180,6 +188,66 @@ def gen_pair(r, max_chrom=3, max_genes=6, max_tes=30, chrom_names=None, min_chro
     else:
         genes.sort(key=lambda g: (g["chrom"], g["start"])); tes.sort(key=lambda t: (t["chrom"], t["start"]))
     return {"genes": genes, "tes": tes, "windows": [first, delta, last], "features": sorted(feats)}
+
+
+def cross_order_only(r, tes, groups, feats):
+    """re-label the TEs so that no two elements of one ORDER overlap while elements of different orders do (nesting and partial
+    overlap across orders only): the all-TE total is then the only level at which anything has to be merged"""
+    orders = sorted(set(o for o, _ in groups))
+    if len(orders) < 2:
+        return tes
+    sf_of = {o: [sf for oo, sf in groups if oo == o] for o in orders}
+    out = []
+    for ch in sorted(set(t["chrom"] for t in tes)):
+        mine = sorted((t for t in tes if t["chrom"] == ch), key=lambda t: (t["start"], t["stop"]))
+        last_stop = {o: 0 for o in orders}
+        for t in mine:
+            free = [o for o in orders if last_stop[o] < t["start"]]
+            if not free:
+                continue                      # would overlap an element of every order: leave it out
+            o = r.choice(free)
+            last_stop[o] = t["stop"]
+            t = dict(t); t["order"] = o; t["superfam"] = r.choice(sf_of[o])
+            out.append(t)
+        if not any(t["chrom"] == ch for t in out):
+            t = dict(mine[0]); out.append(t)
+    feats.add("overlap_across_orders_only")
+    return out
+
+
+def gen_large_group(r, n=700):
+    """one chromosome, one gene in the middle of one group of n elements: long elements with many short ones nested in them
+    (so that a scan has far more hits than a block of a few dozen), chains, true gaps; a few elements of another order across them"""
+    tes, pos = [], 1000
+    while len(tes) < n:
+        k = r.random()
+        if k < 0.15:       # a long element with 70-120 fragments nested in it
+            L = r.randint(20000, 40000)
+            tes.append((pos, pos + L))
+            for _ in range(r.randint(70, 120)):
+                a = pos + r.randint(0, L - 50)
+                tes.append((a, min(pos + L, a + r.randint(1, 400))))
+            pos += L + r.choice([1, 2, 50, 300])
+        elif k < 0.6:      # a chain
+            for _ in range(r.randint(2, 6)):
+                ln = r.randint(1, 300)
+                tes.append((pos, pos + ln)); pos += r.randint(0, ln + 1)
+            pos += r.randint(2, 200)
+        else:
+            ln = r.randint(1, 200)
+            tes.append((pos, pos + ln)); pos += ln + r.randint(2, 500)
+    tes = tes[:n + 60]
+    mid = tes[len(tes) // 2][0]
+    lo_, hi_ = min(a for a, _ in tes), max(b for _, b in tes)
+    ngen = 24                                   # genes all along the group: wherever a block boundary might fall
+    genes = [{"name": "big_g%d" % i, "chrom": "ChrBig", "start": lo_ + (hi_ - lo_) * (i + 1) // (ngen + 1), "stop": lo_ + (hi_ - lo_) * (i + 1) // (ngen + 1) + 450,
+              "strand": "+-."[i % 3]} for i in range(ngen)]
+    rows = [{"chrom": "ChrBig", "start": a, "stop": b, "order": "LTR", "superfam": "Gypsy", "strand": "+"} for a, b in tes]
+    for i in range(12):
+        a = mid - 3000 + 600 * i
+        rows.append({"chrom": "ChrBig", "start": a, "stop": a + 350, "order": "DNA", "superfam": "hAT", "strand": "-"})
+    r.shuffle(rows)
+    return {"genes": genes, "tes": rows, "windows": [500, 1500, 3500], "features": ["large_group_%d" % len(tes)]}
 
 
 def has_same_group_overlap(tes):
@@ -236,6 +304,14 @@ def gen_pileup(r):
         b = max(a, min(MAXC, a + r.choice([0, 1, 10, w, 3 * w + 7])))
         c["tes"].append({"chrom": g["chrom"], "start": a, "stop": b, "order": o, "superfam": sf, "strand": "+"})
     c["features"] = sorted(set(c["features"]) | {"pileup"})
+    if r.random() < 0.15:
+        # the same pile, but stacked across the orders only: no order overlaps itself anywhere in the annotation
+        feats = set(c["features"])
+        groups = sorted(set((t["order"], t["superfam"]) for t in c["tes"]))
+        if len(set(o_ for o_, _ in groups)) < 2:
+            groups.append(("Helitron" if groups[0][0] != "Helitron" else "LINE", "Xfam"))
+        c["tes"] = cross_order_only(r, c["tes"], groups, feats)
+        c["features"] = sorted(feats)
     r.shuffle(c["tes"])
     return c
 
